@@ -19,7 +19,10 @@ META = {
              "of its own type with its own payload, elements, keys and values in order and nothing collected, on the streaming "
              "route and on the Value route (JSON slices), and that the two routes make the same calls. The models are diffed "
              "against the real transcoder and the real Value through the verif hooks (all 17 visit methods x width boundaries, "
-             "every small script, seeded larger ones). What the third-party codecs then make of those calls is checked on the "
+             "every small script, seeded larger ones). For MessagePack the codec itself is modelled (rmp's encoder, rmp-serde's "
+             "decoder; diffed against the real ones by the MessagePack correspondence) and it is proved for ALL encodable values, of "
+             "any size and any depth below the limit, that the reader recovers exactly the events the writer encoded, whatever "
+             "follows them, and that no two encodings coincide or prefix one another. What the third-party codecs then make of those calls is checked on the "
              "implementation: generated documents of the common model and each pair's extensions, several spellings per value "
              "(escape forms, quoting and block styles, whitespace, exponent forms, non-minimal MessagePack widths), all 16 format "
              "pairs, slice and reader, explicit and detected source, output read back with an independent reader (Python json, "
@@ -135,6 +138,7 @@ def run(outcome, tier, seed):
                                                       "exhaustive_scripts": st["exhaustive_scripts"], "max_nodes": st["max_nodes"],
                                                       "bound": "17 visit methods x width-boundary payloads at top level, in a seq and as map key/value; "
                                                                "every script up to max_nodes; seeded random scripts to depth 5"}
+        shared.msgpack_correspondence(outcome, tier, seed, oracle=False)
     run_fidelity(outcome, tier, seed)
     run_known(outcome)
     listed = {k["id"] for k in common.load_known("C01")}
